@@ -211,8 +211,12 @@ impl<'a> Engine<'a> {
             RUTG => self.op_rutg()?,
             RDTG => self.op_rdtg()?,
             SANGW => self.op_sangw()?,
-            // Unsupported instruction, do nothing
-            AA => {}
+            // Unsupported instruction: does nothing except popping its
+            // argument.
+            // See <https://gitlab.freedesktop.org/freetype/freetype/-/blob/57617782464411201ce7bbc93b086c1b4d7d84a5/src/truetype/ttinterp.c#L668>
+            AA => {
+                self.value_stack.pop()?;
+            }
             FLIPPT => self.op_flippt()?,
             FLIPRGON => self.op_fliprgon()?,
             FLIPRGOFF => self.op_fliprgoff()?,
@@ -266,5 +270,16 @@ mod tests {
             engine.reset(program, false);
             assert_eq!(engine.value_stack.len(), 0);
         }
+    }
+
+    /// AA[] takes one argument from the stack.
+    #[test]
+    fn aa_pops_its_argument() {
+        let mut mock = MockEngine::new();
+        let mut engine = mock.engine();
+        // PUSHB[1] 7 9; AA[]
+        engine.program.bytecode[0] = &[0xB1, 7, 9, 0x7F];
+        engine.run_program(Program::Font, false).unwrap();
+        assert_eq!(engine.value_stack.values(), &[7]);
     }
 }
